@@ -360,7 +360,11 @@ def drive_facets(recipe, prebuilt=None):
         energies = [float(e) for e in energies]
     proj = Projector(wmax)
     try:
+        n0, e0 = np.array(normals, dtype=float), np.array(energies, dtype=float)
         w = prebuilt[0] if prebuilt else WulffConstruction(normals, energies)
+        if not (np.array_equal(np.array(normals, dtype=float), n0) and np.array_equal(np.array(energies, dtype=float), e0)):
+            t["exc"] = "ArgumentMutated"              # the caller's arrays must come back untouched
+            return t
         verts = np.asarray(w.wulff_vertices, dtype=float)
         t["verts"] = [proj.point(v * q) for v in verts]
         t["lists"] = [_ints(lst) for lst in w.wulff_facets]
